@@ -37,7 +37,8 @@ PIPES = [["compute_tip_position"],
 POC = ["deviation_from_baseline", "fit_constant_line", "fit_constant_polynomial", "fit_line_polynomial",
        "frechet_direct_path", "gradient_zero_crossing"]
 SCENARIOS = ["params_passed", "params_returned", "pre_list", "pre_options", "range_x", "method_kws",
-             "fit_pre_kwargs", "poc_array", "rater_names", "rater_arrays", "curve_attrs", "details_alias"]
+             "fit_pre_kwargs", "poc_array", "rater_names", "rater_arrays", "curve_attrs", "details_alias",
+             "params_skipped_pass"]
 
 
 def st_case(scenario):
@@ -251,6 +252,50 @@ def scenario_params_passed(case, ctx, desc):
 
     _twin(case, ctx, desc, make, lambda args: edit_params(args["p"], case), call, prep=_prep_tip,
           stored=lambda i: fitgen.pstate(i.fit_properties.get("params_initial")))
+
+
+def scenario_params_skipped_pass(case, ctx, desc):
+    """a fit whose (last) pass is skipped because its range holds too few points leaves the passed parameters and
+    what the curve remembers of them as they were; the next fit, which does not name parameters, starts from them"""
+    cfg = dict(case["cfg"], optimal_fit_edelta=False)
+    e = case["edit"]
+    tiny = dict(cfg)
+    if e["pipe_a"] % 2:
+        tiny.update(range_type="relative cp", range_x=[-1e-13, 1e-13])
+    else:
+        tiny.update(range_type="absolute", range_x=[1.0, 1.0 + 1e-9])
+    full = dict(cfg, range_type="absolute", range_x=[0, 0])
+    a = _prep_tip(case)
+    p = fitgen.initial_from_truth(case["curve"], e_factor=1.2, cp_off=0.02)
+    if e["param"] == "cp_bound_nm":
+        p["contact_point"].set(min=p["contact_point"].value - 0.1 * case["curve"]["depth"],
+                               max=p["contact_point"].value + 0.1 * case["curve"]["depth"])
+    before = fitgen.deep_state({"p": p})
+    with fitgen.catch() as box:
+        a.fit_model(params_initial=p, **fit_kw(tiny))
+    skipped = box["exc"] is None and not a.fit_properties.get("success")
+    ctx.note_case(case, nontrivial=bool(skipped and cfg["gcf_k"] != 1), classes=["params_skipped_pass", tiny["range_type"],
+                                                                              "skipped" if skipped else "not_skipped"])
+    if box["exc"] is not None:
+        return
+    ctx.check(fitgen.deep_state({"p": p}) == before, "argument-mutated", desc, "params_initial changed by a fit with a skipped pass")
+    ctx.check(fitgen.pstate(a.get_initial_fit_parameters()) == fitgen.pstate(p), "stored-parameters-differ-from-passed", desc,
+              f"after the fit the curve hands back {fitgen.pstate(a.get_initial_fit_parameters())}, passed {fitgen.pstate(p)}")
+    with fitgen.catch() as box_a:
+        a.fit_model(range_type="absolute", range_x=[0, 0])
+    b = _prep_tip(case)
+    p2 = fitgen.initial_from_truth(case["curve"], e_factor=1.2, cp_off=0.02)
+    if e["param"] == "cp_bound_nm":
+        p2["contact_point"].set(min=p2["contact_point"].value - 0.1 * case["curve"]["depth"],
+                                max=p2["contact_point"].value + 0.1 * case["curve"]["depth"])
+    with fitgen.catch() as box_b:
+        b.fit_model(params_initial=p2, **fit_kw(full))
+    ea, eb = (type(box_a["exc"]).__name__ if box_a["exc"] else None), (type(box_b["exc"]).__name__ if box_b["exc"] else None)
+    ctx.check(ea == eb, "in-place-edit-outcome-differs", desc, f"follow-up fit: {ea}; fresh curve: {eb}")
+    if ea is None and eb is None:
+        d = same(result(a), result(b))
+        ctx.check(not d, "edited-value-not-honoured", desc,
+                  f"the fit after a skipped pass differs from the same fit on a fresh curve with the same parameters in {d[:5]}")
 
 
 def scenario_params_returned(case, ctx, desc):
@@ -542,6 +587,21 @@ def scenario_rater_arrays(case, ctx, desc):
     ctx.check(np.array_equal(X, keepX) and np.array_equal(y, keepy), "argument-mutated", dict(desc, regressor=reg),
               "rate_quality modified the in-memory training set")
     del w
+    # the caller edits the SAME arrays in place and passes them again: as for fresh equal-valued arrays
+    y[:] = 10 - y
+    X *= 0.5
+    with ctx.no_raise("raises", dict(desc, regressor=reg)) as guard:
+        r_same = np.array(get_rater(reg, training_set=(X, y), names=names).rate(samples=S), dtype=float)
+        r_new = np.array(get_rater(reg, training_set=(X.copy(), y.copy()), names=list(names)).rate(samples=S.copy()),
+                         dtype=float)
+        q_same = idq.rate_quality(regressor=reg, training_set=(X, y), names=names)
+        q_new = _fitted(case).rate_quality(regressor=reg, training_set=(X.copy(), y.copy()), names=list(names))
+    if guard.ok:
+        ctx.check(np.array_equal(r_same, r_new, equal_nan=True), "in-place-edit-not-noticed", dict(desc, regressor=reg),
+                  f"get_rater with the training arrays edited in place and passed again rates {r_same.tolist()}, with fresh "
+                  f"equal arrays {r_new.tolist()}")
+        ctx.check(q_same == q_new, "in-place-edit-not-noticed", dict(desc, regressor=reg, via="rate_quality"),
+                  f"rate_quality with the edited training arrays passed again: {q_same!r}; fresh curve and arrays: {q_new!r}")
     idnt = _fitted(case)
     snap = fitgen.snapshot(idnt)
     rater.rate(datasets=idnt)
